@@ -1,1 +1,101 @@
-/-! # C10 — property theorems (to be filled in) -/
+import JokerVerif.Lemmas.RngLemmas
+/-!
+# C10 — seeded runs are reproducible; randomness is confined to the given generator
+
+Property theorems only (model: `Model/Rng.lean`).  Every statement is for every initial generator, every
+history of events (= any sequence of `rejection_sample` / `iterative_rejection_sample` /
+`marginal_ln_likelihood` calls with any batching), no bound on lengths.
+
+This property is *partial* by nature (DESIGN 3/C10): the theorems cover the RNG plumbing of the model; that
+the Python runtime has no hidden source of nondeterminism is sampled by the harness, not proved.
+-/
+namespace Rng
+
+/-- the sampler model is a function of `(inputs, g₀)` only: two runs from the same generator and the same
+events give the same outputs and the same final generator whatever the global random state is, and that
+global state is returned untouched -/
+theorem output_function_of_seed {γ α : Type} (stream : List Nat → Nat → α) (w w' : γ) (g : Gen)
+    (evs : List Ev) :
+    (runWorld stream w g evs).2 = (runWorld stream w' g evs).2 ∧ (runWorld stream w g evs).1 = w :=
+  ⟨rfl, rfl⟩
+
+/-- over every history and every batching, all child spawn keys handed to tasks are pairwise distinct,
+distinct from the parent's key, and carry the parent's entropy -/
+theorem spawned_keys_distinct (g : Gen) (evs : List Ev) :
+    ((kidsOf (run g evs).2).map (·.key)).Nodup ∧
+    (∀ c ∈ kidsOf (run g evs).2, c.key ≠ g.ss.key) ∧
+    (∀ c ∈ kidsOf (run g evs).2, c.entropy = g.ss.entropy) := by
+  obtain ⟨hform, hnd⟩ := run_key_form evs g
+  refine ⟨hnd, ?_, ?_⟩
+  · intro c hc h
+    obtain ⟨j, _, hkey, _⟩ := hform c hc
+    rw [hkey] at h
+    have := congrArg List.length h
+    simp at this
+  · intro c hc
+    obtain ⟨_, _, _, hent⟩ := hform c hc
+    exact hent
+
+/-- successive calls: no child key of a later call equals a child key of an earlier call -/
+theorem successive_calls_keys_disjoint (g : Gen) (call₁ call₂ : List Ev) :
+    ∀ c₁ ∈ kidsOf (run g call₁).2, ∀ c₂ ∈ kidsOf (run (run g call₁).1 call₂).2, c₁.key ≠ c₂.key := by
+  have hnd := (spawned_keys_distinct g (call₁ ++ call₂)).1
+  rw [run_append] at hnd
+  have hk : ∀ a b : List Obs, kidsOf (a ++ b) = kidsOf a ++ kidsOf b := by
+    intro a b
+    induction a with
+    | nil => rfl
+    | cons o r ih => cases o <;> simp [kidsOf, ih]
+  simp only [hk, List.map_append] at hnd
+  rw [List.nodup_append] at hnd
+  intro c₁ h₁ c₂ h₂
+  exact hnd.2.2 _ (List.mem_map_of_mem h₁) _ (List.mem_map_of_mem h₂)
+
+/-- the parent's stream only moves forward: the segments handed out over a history are pairwise disjoint
+(each ends before the next begins), and the final position is the initial one plus everything drawn -/
+theorem parent_stream_advances (g : Gen) (evs : List Ev) :
+    (segmentsOf (run g evs).2).Pairwise (fun a b => a.1 + a.2 ≤ b.1) ∧
+    (run g evs).1.pos = g.pos + drawn evs ∧
+    (run g evs).1.ss.nSpawned = g.ss.nSpawned + spawned evs :=
+  ⟨(run_segments evs g).2.1, (run_segments evs g).2.2.1, (run_segments evs g).2.2.2⟩
+
+/-- one file-path call consumes one uniform per likelihood of every round (plus the shuffle) and spawns one
+child per task -/
+theorem call_consumption (g : Gen) (nShuffle : Nat) (rounds : List Nat) (nTasks : Nat) :
+    (run g (fileCallEvents nShuffle rounds nTasks)).1.pos = g.pos + nShuffle + rounds.sum ∧
+    (run g (fileCallEvents nShuffle rounds nTasks)).1.ss.nSpawned = g.ss.nSpawned + nTasks := by
+  have h := parent_stream_advances g (fileCallEvents nShuffle rounds nTasks)
+  have hd : ∀ l : List Nat, drawn (l.map Ev.draw ++ [Ev.spawn nTasks]) = l.sum ∧
+      spawned (l.map Ev.draw ++ [Ev.spawn nTasks]) = nTasks := by
+    intro l
+    induction l with
+    | nil => simp [drawn, spawned]
+    | cons a r ih => simp [drawn, spawned, ih]
+  rw [h.2.1, h.2.2]
+  unfold fileCallEvents
+  split
+  · rename_i h0; subst h0; simp [hd]
+  · simp [drawn, spawned, hd]; omega
+
+/-- if different seed-sequence keys give different streams (numpy's contract for `SeedSequence`, modelled),
+then the first variates of all children — across batches and across successive calls — are pairwise
+different: linear-parameter draws are never repeated -/
+theorem child_draws_distinct {α : Type} (stream : List Nat → Nat → α)
+    (hinj : ∀ k k', stream k 0 = stream k' 0 → k = k') (g : Gen) (evs : List Ev) :
+    ((kidsOf (run g evs).2).map (fun c => stream c.key 0)).Nodup := by
+  have hnd := (spawned_keys_distinct g evs).1
+  have : (kidsOf (run g evs).2).map (fun c => stream c.key 0)
+      = ((kidsOf (run g evs).2).map (·.key)).map (fun k => stream k 0) := by
+    rw [List.map_map]; rfl
+  rw [this]
+  show List.Pairwise (· ≠ ·) _
+  rw [List.pairwise_map]
+  exact hnd.imp (fun hab h => hab (hinj _ _ h))
+
+-- non-vacuity: two calls (3 tasks, then 2 tasks) after a call that already spawned: concrete keys
+example : (kidsOf (run ⟨⟨42, [7], 2⟩, 0⟩ (fileCallEvents 0 [5] 3 ++ fileCallEvents 4 [5, 9] 2)).2).map (·.key)
+    = [[7, 2], [7, 3], [7, 4], [7, 5], [7, 6]] := by decide
+example : segmentsOf (run ⟨⟨42, [], 0⟩, 10⟩ (fileCallEvents 0 [5] 3 ++ fileCallEvents 4 [5, 9] 2)).2
+    = [(10, 5), (15, 4), (19, 5), (24, 9)] := by decide
+
+end Rng
